@@ -409,7 +409,23 @@ def run(index: RepoIndex, rep) -> None:
              'memoising wrapper: states compare by value, Box contents excluded)', floor=9)
     from ..effects import Effects
     from .c03 import memo_rules
-    memo_rules(index, rep, 'C05.R6', Effects(index), only_rel='gym_gridverse/grid.py')
+    eff_ = Effects(index)
+    memo_rules(index, rep, 'C05.R6', eff_, only_rel='gym_gridverse/grid.py')
+    # the grid a visibility function is given is the observation being built: it is only masked
+    # afterwards, by from_visibility; a visibility function that rearranges it (rows reversed
+    # through a Grid that shares them) makes the observation show cells in the wrong places
+    rep.rule('C05.R8', 'visibility functions (and their helpers) leave the grid they are given '
+             'untouched (C03.R2)', floor=4)
+    for name, fn in sorted(index.registry('visibility', 4).items()):
+        for f_ in [fn] + list(eff_.nested.get(fn.qualname, {}).values()):
+            sm = eff_.summary(f_)
+            gp = f_.node.args.args[0].arg if f_.node.args.args else ''
+            sites = [f'line {l} `{t}`' for l, t in sm.mut_sites.get(gp, [])[:2]]
+            rep.check(gp not in sm.mut_params, 'C05.R8', f_.relpath, f_.short, f_.node.lineno,
+                      '; '.join(sites) or f_.short,
+                      f'visibility function {f_.short} may modify the grid it is given '
+                      f'({"; ".join(sites)}): the observation built from that grid shows cells '
+                      f'where they are not', f'{f_.short} leaves its grid alone')
     geo = Geometry(index)
     pipe = Pipeline(index, geo)
     sub = Subgrid(index)
